@@ -147,6 +147,53 @@ var ruleLast = &Rule{
 			out.viol("subscript executor records the array size", p.pos(sub.Pos()), fnName(sub), "no Executor field receives len(array)")
 			return out
 		}
+		// the recorded size is that of the array the subscripts select from:
+		// the very value that is indexed (after lax auto-wrapping), not an
+		// earlier version of it
+		for _, s := range p.execStores(sub) {
+			if s.Field != sizeField {
+				continue
+			}
+			c, ok := s.Store.Val.(*ssa.Call)
+			if !ok {
+				continue
+			}
+			if bi, ok := c.Call.Value.(*ssa.Builtin); !ok || bi.Name() != "len" {
+				continue
+			}
+			measured := c.Call.Args[0]
+			var indexed []ssa.Value
+			for _, b := range sub.Blocks {
+				for _, ins := range b.Instrs {
+					switch x := ins.(type) {
+					case *ssa.IndexAddr:
+						if _, isSl := x.X.Type().Underlying().(*types.Slice); isSl && types.Identical(x.X.Type(), measured.Type()) {
+							indexed = append(indexed, x.X)
+						}
+					case *ssa.Call:
+						if f := x.Call.StaticCallee(); f != nil && inModule(f) {
+							for _, a := range x.Call.Args {
+								if types.Identical(a.Type(), measured.Type()) {
+									indexed = append(indexed, a)
+								}
+							}
+						}
+					}
+				}
+			}
+			same := len(indexed) == 0
+			for _, v := range indexed {
+				if v == measured {
+					same = true
+				}
+			}
+			key := "the recorded size is the selected array's"
+			if same {
+				out.ok(key, p.pos(s.Store.Pos()), fnName(sub), fmt.Sprintf("len is taken of the value that is indexed (%d uses)", len(indexed)))
+			} else {
+				out.viol(key, p.pos(s.Store.Pos()), fnName(sub), "the size recorded for `last` is the length of "+measured.Name()+", but the subscripts select from a different value (the array after lax auto-wrapping): `last` is then not n−1 of the array being subscripted")
+			}
+		}
 		// the last arm
 		cfn := p.itemArm("ConstNode")
 		ei := p.A.Enums["Constant"]
